@@ -60,7 +60,10 @@ def kinds : List Kind :=
     -- a custom `Skill.CanUse` is a further condition on top of the cost: one that always allows changes nothing,
     -- one that never allows is a cost no team can pay (skill points never exceed 5)
     { attackT := 3, skillT := 3, ultT := 3, spNeed := 1, spAdd := 1 },
-    { attackT := 3, skillT := 3, ultT := 3, spNeed := 1000, spAdd := 1 } ]
+    { attackT := 3, skillT := 3, ultT := 3, spNeed := 1000, spAdd := 1 },
+    -- kits whose skill and ultimate are aimed at different sides
+    { attackT := 3, skillT := 1, ultT := 3, spNeed := 1, spAdd := 1 },
+    { attackT := 3, skillT := 3, ultT := 2, spNeed := 1, spAdd := 1 } ]
 
 def cyc {β} [Inhabited β] (l : List β) (i : Nat) : β := if l.isEmpty then default else l.getD (i % l.length) default
 
